@@ -17,7 +17,7 @@ var (
 	c04Left  = []string{"LEFT JOIN", "LEFT HASH_JOIN", "PARALLEL LEFT JOIN", "PARALLEL LEFT HASH_JOIN"}
 	c04Right = []string{"RIGHT JOIN", "RIGHT HASH_JOIN", "PARALLEL RIGHT JOIN", "PARALLEL RIGHT HASH_JOIN"}
 	c04Floor = []string{"type.inner", "type.left", "type.right", "on.equi", "on.nonequi", "on.or", "on.multi", "on.flipped", "keys.str", "keys.num", "dupkeys",
-		"left.empty", "right.empty", "unmatched.left", "unmatched.right", "meta.permute", "meta.flip", "keys.mixed-kind", "alias.prefix", "keys.nested-path", "keys.many", "keys.native", "operands.swapped"}
+		"left.empty", "right.empty", "unmatched.left", "unmatched.right", "meta.permute", "meta.flip", "keys.mixed-kind", "alias.prefix", "keys.nested-path", "keys.many", "keys.native", "operands.swapped", "on.between", "on.not"}
 )
 
 func init() {
@@ -152,6 +152,19 @@ func c04On(c *fw.Case, force string) (gen.Pred, []string) {
 	}
 	var rec func(d int) gen.Pred
 	rec = func(d int) gen.Pred {
+		if force == "on.between" && d > 0 || force == "" && c.Chance(0.08) {
+			// a range check whose bounds are columns of the other side
+			feats = append(feats, "on.between", "on.nonequi", "keys.num")
+			col, lo, hi := "x.a", "y.m", "y.j"
+			if c.Chance(0.4) {
+				col, lo, hi = "y.m", "x.a", "x.k"
+			}
+			return gen.BetweenCols{Col: col, Lo: lo, Hi: hi, Neg: c.Chance(0.3)}
+		}
+		if d > 0 && (force == "on.not" || force == "" && c.Chance(0.1)) {
+			feats = append(feats, "on.not", "on.nonequi")
+			return gen.Not{A: rec(d - 1)}
+		}
 		if d == 0 || c.Chance(0.3) {
 			return atom(false)
 		}
@@ -163,7 +176,7 @@ func c04On(c *fw.Case, force string) (gen.Pred, []string) {
 		return gen.And{A: rec(d - 1), B: rec(d - 1)}
 	}
 	d := c.Intn(4)
-	if force == "on.or" || force == "on.multi" {
+	if force == "on.or" || force == "on.multi" || force == "on.between" || force == "on.not" {
 		d = 1 + c.Intn(3)
 	}
 	p := rec(d)
@@ -207,6 +220,8 @@ func c04Respell(c *fw.Case, p gen.Pred, flip, permute bool) gen.Pred {
 			return gen.Or{A: b, B: a}
 		}
 		return gen.Or{A: a, B: b}
+	case gen.Not:
+		return gen.Not{A: c04Respell(c, t.A, flip, permute)}
 	}
 	return p
 }
